@@ -110,7 +110,7 @@ def run(rep, tier, seed, tr_errors):
         "tools/cdc.py: circuit generator and the spelling printer (the oracle for alternative spellings)",
     ]
     thm_ok, names, out = lib.check_props_file(rep, PROPS_FILE, expect=["C03_container_scope", "C03_one_node_per_step", "C03_basic_text_lexes_exactly", "C03_builtin_registry_symbols_valid",
-                                                                    "C03_basic_round_trip", "C03_basic_round_trip_applies"])
+                                                                    "C03_basic_round_trip", "C03_basic_round_trip_parse", "C03_basic_round_trip_applies"])
     n_rt = 250 if tier == "quick" else 5000
     n_sp = 400 if tier == "quick" else 8000
     cases = []
